@@ -2,6 +2,7 @@ import Driver.CacheDriver
 import Driver.StoreDriver
 import Driver.ArgDriver
 import Driver.RunnerDriver
+import Driver.CodecDriver
 open Driver
 
 def main (args : List String) : IO UInt32 := do
@@ -11,5 +12,6 @@ def main (args : List String) : IO UInt32 := do
   | ["cache"] => loop CacheDriver.stepLine stdin stdout (Memento.Cache.init 0); return 0
   | ["arghash"] => loop ArgDriver.stepLine stdin stdout (); return 0
   | ["runner"] => loop RunnerDriver.stepLine stdin stdout {}; return 0
+  | ["codec"] => loop CodecDriver.stepLine stdin stdout []; return 0
   | ["store"] => loop StoreDriver.stepLine stdin stdout StoreDriver.St.none; return 0
   | _ => IO.eprintln "usage: mmodel <model>"; return 2
